@@ -506,7 +506,7 @@ func runC18Tree(c *core.Ctx, crashes bool) {
 		w.Stats.Inc("root-at-minimum-gas-limit")
 	}
 
-	steps := 40 + ch.Int(70)
+	steps := (40 + ch.Int(70)) * c.Scale
 	for i := 0; i < steps && !r.stop; i++ {
 		c.Step("c18")
 		crash := world.NoCrash
